@@ -108,7 +108,7 @@ func floor(s *slip.Scope, f slip.Object, args slip.List, depth int) slip.Values 
 		bi, acc := quo.Int(nil)
 		switch acc {
 		case big.Exact:
-			q = (*slip.Bignum)(bi)
+			q = slip.IntegerFromBig(bi)
 			r = (*slip.LongFloat)(big.NewFloat(0.0))
 		case big.Below:
 			var (
@@ -118,7 +118,7 @@ func floor(s *slip.Scope, f slip.Object, args slip.List, depth int) slip.Values 
 			)
 			_ = zq.SetInt(bi)
 			d := (*big.Float)(div.(*slip.LongFloat))
-			q = (*slip.Bignum)(bi)
+			q = slip.IntegerFromBig(bi)
 			_ = zp.Mul(&zq, d)
 			r = (*slip.LongFloat)(zr.Sub((*big.Float)(tn), &zp))
 		case big.Above:
@@ -130,7 +130,7 @@ func floor(s *slip.Scope, f slip.Object, args slip.List, depth int) slip.Values 
 			d := (*big.Float)(div.(*slip.LongFloat))
 			bi = bi.Sub(bi, big.NewInt(1))
 			_ = quo.SetInt(bi)
-			q = (*slip.Bignum)(bi)
+			q = slip.IntegerFromBig(bi)
 			_ = zq.SetInt(bi)
 			_ = zp.Mul(&quo, d)
 			r = (*slip.LongFloat)(zr.Sub((*big.Float)(tn), &zp))
@@ -144,31 +144,31 @@ func floor(s *slip.Scope, f slip.Object, args slip.List, depth int) slip.Values 
 		d := (*big.Int)(div.(*slip.Bignum))
 		switch zr.Sign() {
 		case 0:
-			q = (*slip.Bignum)(&zq)
-			r = (*slip.Bignum)(&zr)
+			q = slip.IntegerFromBig(&zq)
+			r = slip.IntegerFromBig(&zr)
 		case 1:
 			if d.Sign() == 1 {
-				q = (*slip.Bignum)(&zq)
-				r = (*slip.Bignum)(&zr)
+				q = slip.IntegerFromBig(&zq)
+				r = slip.IntegerFromBig(&zr)
 			} else {
 				_ = zq.Sub(&zq, big.NewInt(1))
-				q = (*slip.Bignum)(&zq)
+				q = slip.IntegerFromBig(&zq)
 				var zp big.Int
 				_ = zp.Mul(&zq, d)
-				r = (*slip.Bignum)(zr.Sub((*big.Int)(tn), &zp))
+				r = slip.IntegerFromBig(zr.Sub((*big.Int)(tn), &zp))
 			}
 		case -1:
 			if d.Sign() == 1 {
 				_ = zq.Sub(&zq, big.NewInt(1))
-				q = (*slip.Bignum)(&zq)
+				q = slip.IntegerFromBig(&zq)
 				var zp big.Int
 				_ = zp.Mul(&zq, d)
-				r = (*slip.Bignum)(zr.Sub((*big.Int)(tn), &zp))
+				r = slip.IntegerFromBig(zr.Sub((*big.Int)(tn), &zp))
 			} else {
-				q = (*slip.Bignum)(&zq)
+				q = slip.IntegerFromBig(&zq)
 				var zp big.Int
 				_ = zp.Mul(&zq, d)
-				r = (*slip.Bignum)(zr.Sub((*big.Int)(tn), &zp))
+				r = slip.IntegerFromBig(zr.Sub((*big.Int)(tn), &zp))
 			}
 		}
 	case *slip.Ratio:
@@ -187,15 +187,15 @@ func floor(s *slip.Scope, f slip.Object, args slip.List, depth int) slip.Values 
 		_ = zr.Sub((*big.Rat)(tn), &zp)
 		switch zr.Sign() {
 		case 0:
-			q = (*slip.Bignum)(&bi)
+			q = slip.IntegerFromBig(&bi)
 			r = slip.Fixnum(0)
 		case 1:
 			if d.Sign() == 1 {
-				q = (*slip.Bignum)(&bi)
+				q = slip.IntegerFromBig(&bi)
 				r = (*slip.Ratio)(&zr)
 			} else {
 				_ = bi.Sub(&bi, big.NewInt(1))
-				q = (*slip.Bignum)(&bi)
+				q = slip.IntegerFromBig(&bi)
 				_ = zb.SetInt(&bi)
 				_ = zp.Mul(&zb, d)
 				_ = zr.Sub((*big.Rat)(tn), &zp)
@@ -203,12 +203,12 @@ func floor(s *slip.Scope, f slip.Object, args slip.List, depth int) slip.Values 
 			}
 		case -1:
 			if d.Sign() == 1 {
-				q = (*slip.Bignum)(bi.Sub(&bi, big.NewInt(1)))
+				q = slip.IntegerFromBig(bi.Sub(&bi, big.NewInt(1)))
 				_ = zb.SetInt(&bi)
 				_ = zp.Mul(&zb, d)
 				r = (*slip.Ratio)(zr.Sub((*big.Rat)(tn), &zp))
 			} else {
-				q = (*slip.Bignum)(&bi)
+				q = slip.IntegerFromBig(&bi)
 				r = (*slip.Ratio)(&zr)
 			}
 		}
